@@ -1178,4 +1178,96 @@ theorem compareScan_eq (cfg : Cfg) (col : List Cell) (op : Op) (a : ArgV) (hshap
     all_goals (simp only [compareScan]; apply scanFilter_congr; intro c hc; simp only [sat])
 
 
+/-! ## the plain test in terms of keys -/
+
+theorem Key.lt_missing (k : Key) (h : k ≠ .missing) : k.lt .missing = true := by
+  cases k <;> simp_all [Key.lt, Key.rank]
+
+theorem Key.missing_lt (k : Key) : Key.lt .missing k = false := by
+  cases k <;> simp [Key.lt, Key.rank]
+
+theorem cell_ne_none_of_key {c : Cell} (h : c.key ≠ .none) : c ≠ Cell.none := by
+  rintro rfl; exact h rfl
+
+theorem pyEq_eq_decide (a b : Cell) (ha : a.key ≠ .none) (hb : b.key ≠ .none) :
+    pyEq a b = decide (a.key = b.key) := by
+  rw [Bool.eq_iff_iff]
+  simp [pyEq_iff_key a b ha hb]
+
+theorem pyIn_eq_any (c : Cell) (vs : List Cell) (hc : c.key ≠ .none) (hv : NoNone vs) :
+    pyIn c vs = vs.any (fun v => decide (c.key = v.key)) := by
+  unfold pyIn
+  induction vs with
+  | nil => rfl
+  | cons v rest ih =>
+    simp only [List.any_cons]
+    rw [pyEq_eq_decide c v hc (hv v (by simp)), ih (fun w hw => hv w (by simp [hw]))]
+
+/-- what a cell has to be like for the plain test against `a` to be an order question:
+not `None`, comparable with the probes, and the probes of an order comparison are not `Missing` -/
+structure CellOK (op : Op) (a : ArgV) (c : Cell) : Prop where
+  nn : c.key ≠ .none
+  cmp : ∀ v ∈ probesOf a, c.key.comparable v.key = true
+  vmiss : (op = .lt ∨ op = .le ∨ op = .gt ∨ op = .ge) → ∀ v ∈ probesOf a, v.key ≠ .missing
+
+theorem sat_eq_argSat (op : Op) (a : ArgV) (c : Cell) (hshape : argShape op a = true)
+    (hv : NoNone (probesOf a)) (h : CellOK op a c) : sat op a c = .ok (argSat op a c.key) := by
+  have hcn := cell_ne_none_of_key h.nn
+  cases a with
+  | scalar v =>
+    have hvn : v.key ≠ .none := hv v (by simp [probesOf])
+    have hcmp := h.cmp v (by simp [probesOf])
+    cases op <;> simp only [argShape] at hshape <;> try (exact absurd hshape (by decide))
+    · simp [sat, argSat, keySat, pyEq_eq_decide c v h.nn hvn]
+    · simp [sat, argSat, keySat, pyEq_eq_decide c v h.nn hvn]
+    · simp [sat, satOrd, hcn, argSat, keySat, pyLt, hcmp]
+    · have hvm := h.vmiss (by simp) v (by simp [probesOf])
+      simp only [sat, satOrd, hcn, if_false, argSat, keySat, pyLe, Cfg.fixed]
+      by_cases hcm : c.key = .missing
+      · simp [hcm, Key.lt_missing _ hvm]
+      · simp [hcm, hvm, hcmp]
+    · have hvm := h.vmiss (by simp) v (by simp [probesOf])
+      simp only [sat, satOrd, hcn, if_false, argSat, keySat, pyGt]
+      by_cases hcm : c.key = .missing
+      · simp [hcm, Key.lt_missing _ hvm]
+      · simp [hcm, hvm, hcmp]
+    · have hvm := h.vmiss (by simp) v (by simp [probesOf])
+      simp only [sat, satOrd, hcn, if_false, argSat, keySat, pyGe, Cfg.fixed]
+      by_cases hcm : c.key = .missing
+      · simp [hcm, Key.missing_lt]
+      · simp [hcm, hvm, hcmp]
+  | coll vs =>
+    cases op <;> simp only [argShape] at hshape <;> try (exact absurd hshape (by decide))
+    · simp [sat, argSat, pyIn_eq_any c vs h.nn hv]
+    · simp [sat, argSat, pyIn_eq_any c vs h.nn hv]
+
+/-! ## lohis: consecutive segments covering `[a,b)` -/
+
+inductive Segs : List (Nat × Nat) → Nat → Nat → Prop
+  | nil (a : Nat) : Segs [] a a
+  | cons {a h b : Nat} {r : List (Nat × Nat)} : a ≤ h → Segs r h b → Segs ((a, h) :: r) a b
+
+theorem Segs.le {l : List (Nat × Nat)} {a b : Nat} (h : Segs l a b) : a ≤ b := by
+  induction h with
+  | nil a => exact le_refl _
+  | cons h1 _ ih => omega
+
+theorem segs_picks (f : Nat × Nat → Except Err (List (Nat × Nat))) (P : Nat → Prop) :
+    ∀ (segs : List (Nat × Nat)) (a b : Nat), Segs segs a b →
+    (∀ p ∈ segs, ∃ rs, f p = .ok rs ∧ Picks (rs.flatMap rangeOf) p.1 p.2 P) →
+    ∃ rss, segs.mapM f = .ok rss ∧ Picks ((rss.flatMap id).flatMap rangeOf) a b P := by
+  intro segs a b hs
+  induction hs with
+  | nil a =>
+    intro _
+    exact ⟨[], by simp [pure, Except.pure], by simpa using (Picks.nil (lo := a))⟩
+  | @cons a h b r hah hr ih =>
+    intro hf
+    obtain ⟨rs, e, hp⟩ := hf (a, h) (by simp)
+    obtain ⟨rss, e', hp'⟩ := ih (fun p hp => hf p (by simp [hp]))
+    refine ⟨rs :: rss, by rw [List.mapM_cons, e, e']; rfl, ?_⟩
+    simp only [List.flatMap_cons, id, List.flatMap_append]
+    exact hp.append hp' hah hr.le
+
+
 end Coba.C17
